@@ -179,6 +179,12 @@ func c12Commands(thorough bool) []c12Cmd {
 		{"write", []string{"write"}, c12Doc1},
 		{"write", []string{"write", "--track", "3", "--key", "F#", "--bpm", "77"}, c12Doc1},
 		{"write-event", []string{"write", "event"}, c12Doc1},
+		// track counts at which a writer might start to work in parallel or in blocks
+		{"write-tracks", []string{"write", "--track", "16"}, c12Doc1},
+		{"write-tracks", []string{"write", "--track", "17"}, c12Doc1},
+		{"write-tracks", []string{"write", "--track", "40"}, c12Doc1},
+		{"write-tracks", []string{"write", "--track", "300"}, c12Doc1},
+		{"write-event-tracks", []string{"write", "event", "--track", "33"}, c12Doc1},
 		{"write-parse", []string{"write", "parse"}, c12Doc1},
 		{"write-conv", []string{"write", "conv", "-c", "cmt"}, c12Doc1},
 		// the same bytes on every path, whatever they are: byte-order mark, CR LF, no final newline
@@ -387,7 +393,15 @@ func c12IOEval(e *Env, c c12IOCase, base *runOut) {
 	if c.In == "stdin-chunked" {
 		chunks = 3
 	}
-	r := cli.Run(cli.Opt{Stdin: []byte(stdin), StdinChunks: chunks}, args...)
+	var delay time.Duration
+	if c.In == "stdin-late" {
+		delay = 3 * time.Second
+	}
+	redirect := ""
+	if c.Out == "dev-null" {
+		redirect = ">/dev/null"
+	}
+	r := cli.Run(cli.Opt{Stdin: []byte(stdin), StdinChunks: chunks, StdinDelay: delay, Redirect: redirect}, args...)
 	fail := func(class, msg string) {
 		e.R.Fail(ev.Fail{Class: class, Msg: fmt.Sprintf("crd %s [input by %s, output to %s, debug %v]: %s", c12Key(c.Cmd), c.In, c.Out, c.Debug, msg), Kind: "io-path", Case: c})
 	}
@@ -411,6 +425,9 @@ func c12IOEval(e *Env, c c12IOCase, base *runOut) {
 		return
 	}
 	got := r.Stdout
+	if c.Out == "dev-null" {
+		return // a character device swallows the result; the status was compared
+	}
 	if outFile != "" {
 		b, err := os.ReadFile(outFile)
 		if err != nil {
@@ -946,6 +963,7 @@ func runC12(e *Env) {
 
 	// ---- (3) I/O paths
 	var ios []c12IOCase
+	seenIO := map[string]bool{}
 	for _, c := range cmds {
 		if c.Name == "help" {
 			continue // a help text is not a result: it goes to stdout whatever -o says
@@ -967,13 +985,21 @@ func runC12(e *Env) {
 				ios = append(ios, c12IOCase{c, in, "same-file", false})
 			}
 		}
+		// once per command: the result goes to a character device; the input comes from a slow producer
+		if !seenIO[c.Name] {
+			seenIO[c.Name] = true
+			ios = append(ios, c12IOCase{c, "stdin", "dev-null", false})
+			if c.Input != "" && len(c.Input) < 2000 {
+				ios = append(ios, c12IOCase{c, "stdin-late", "stdout", false})
+			}
+		}
 	}
 	mc.ParFor(len(ios), func(i int) {
 		c12IOEval(e, ios[i], nil)
 		e.R.Trace(1)
 		e.R.NonTrivial("io" + fmt.Sprint(i))
 	})
-	e.R.AddPart(ev.Part{Name: "io-paths", Enumerated: "every data-producing command x input by {stdin, -, FILE, stdin delivered in three pieces by a slow writer, FILE = a named pipe, FILE = /dev/stdin} (where it reads one) x output to {stdout, -o new file, -o existing longer file, -o the input FILE itself} x --debug {off, on}: result bytes and status equal to stdin->stdout", Executions: int64(len(ios)), Exhaustive: true})
+	e.R.AddPart(ev.Part{Name: "io-paths", Enumerated: "every data-producing command x input by {stdin, -, FILE, stdin delivered in three pieces by a slow writer, FILE = a named pipe, FILE = /dev/stdin} (where it reads one) x output to {stdout, -o new file, -o existing longer file, -o the input FILE itself} x --debug {off, on}; once per command: stdout is /dev/null (a character device), stdin's first byte arrives after 3 s: result bytes and status equal to stdin->stdout", Executions: int64(len(ios)), Exhaustive: true})
 
 	// ---- (4) supplementary, not deciding: repetition under GOMAXPROCS 1, 2, 16
 	var reps []c12Cmd
